@@ -152,6 +152,8 @@ type FEngine struct {
 	legacy  *cache.Failover
 	generic *cache.FailoverOf[int]
 
+	PostParks bool // also park right after every backend call-out has returned
+
 	Labels  []string // Gallina macro labels
 	Replay  []any
 	PcStats map[string]int
@@ -229,12 +231,20 @@ func (w wrapLegacy) Read(ctx context.Context, key []byte) (interface{}, error) {
 	if f := w.r.takeFault(tid); f != 0 {
 		w.r.record(ctx, FEv{Tid: tid, Kind: "read", Key: k, Coq: fmt.Sprintf("(RFault %s)", Z(f)), Text: fmt.Sprintf("fault(%d)", f)})
 
+		if w.r.PostParks {
+			w.r.park(tid, "rdone")
+		}
+
 		return nil, ferr{f}
 	}
 
 	v, err := raw.Read(ctx, key)
 	c, txt := rresTerm(w.r.inner.(*legacyBackend).resOf(v, err))
 	w.r.record(ctx, FEv{Tid: tid, Kind: "read", Key: k, Coq: c, Text: txt})
+
+	if err != nil && w.r.PostParks {
+		w.r.park(tid, "rdone") // the call-out has returned; the goroutine may be descheduled right here
+	}
 
 	return v, err
 }
@@ -260,12 +270,20 @@ func (r *FEngine) doWrite(ctx context.Context, tid int, k []byte, tok int64, do 
 		r.record(ctx, FEv{Tid: tid, Kind: "write", Key: k, Coq: fmt.Sprintf("%s %s (Some~%s)", Z(tok), Z(ttl), Z(f)),
 			Text: fmt.Sprintf("write(%d,ttl=%d)=fault(%d)", tok, ttl, f)})
 
+		if r.PostParks {
+			r.park(tid, "wdone")
+		}
+
 		return ferr{f}
 	}
 
 	err := do()
 	r.record(ctx, FEv{Tid: tid, Kind: "write", Key: k, Coq: fmt.Sprintf("%s %s None", Z(tok), Z(ttl)),
 		Text: fmt.Sprintf("write(%d,ttl=%d)=ok", tok, ttl)})
+
+	if r.PostParks {
+		r.park(tid, "wdone")
+	}
 
 	return err
 }
@@ -297,6 +315,10 @@ func (w wrapGeneric) Read(ctx context.Context, key []byte) (int, error) {
 	if f := w.r.takeFault(tid); f != 0 {
 		w.r.record(ctx, FEv{Tid: tid, Kind: "read", Key: k, Coq: fmt.Sprintf("(RFault %s)", Z(f)), Text: fmt.Sprintf("fault(%d)", f)})
 
+		if w.r.PostParks {
+			w.r.park(tid, "rdone")
+		}
+
 		return 0, ferr{f}
 	}
 
@@ -311,6 +333,10 @@ func (w wrapGeneric) Read(ctx context.Context, key []byte) (int, error) {
 	})
 	c, txt := rresTerm(res)
 	w.r.record(ctx, FEv{Tid: tid, Kind: "read", Key: k, Coq: c, Text: txt})
+
+	if err != nil && w.r.PostParks {
+		w.r.park(tid, "rdone")
+	}
 
 	return v, err
 }
@@ -408,7 +434,7 @@ func (r *FEngine) build(ctx context.Context) (int64, error) {
 	r.mu.Unlock()
 
 	_, hasDeadline := ctx.Deadline()
-	obs := map[string]any{"tid": tid, "errAtEntry": fmt.Sprint(ctx.Err()), "doneNil": ctx.Done() == nil, "deadline": hasDeadline,
+	obs := map[string]any{"tid": tid, "bg": isBg(ctx), "errAtEntry": fmt.Sprint(ctx.Err()), "doneNil": ctx.Done() == nil, "deadline": hasDeadline,
 		"ttlAtEntry": int64(cache.TTL(ctx)), "skipRead": cache.SkipRead(ctx)}
 
 	r.record(ctx, FEv{Tid: tid, Kind: "bstart", Text: "build-start"})
@@ -448,7 +474,7 @@ func NewFEngine(t *testing.T, rng *rand.Rand, conf FConf) *FEngine {
 		nextTok: 100, nextErr: 1, nextFlt: 1000,
 	}
 
-	bconf := BConf{TTL: 0, Jitter: -1, Name: "be"}
+	bconf := BConf{TTL: int64(time.Hour), Jitter: -1, Name: "be"} // built values stay fresh for 1h
 	r.inner = NewBackend(conf.Backend, bconf.Config(r.stats))
 
 	var logger cache.Logger
@@ -506,6 +532,9 @@ func (r *FEngine) KeyLocks() int {
 	return r.generic.VerifKeyLocks()
 }
 
+// ExpireAll expires every entry of the backend directly (somebody else using the backend).
+func (r *FEngine) ExpireAll() { r.inner.ExpireAll(context.Background()) }
+
 // Seed stores an entry directly in the backend (not through the frontend).
 func (r *FEngine) Seed(key []byte, v int64, ttl time.Duration) {
 	_ = r.inner.Write(cache.WithTTL(context.Background(), ttl, false), key, v)
@@ -555,7 +584,9 @@ type GetSpec struct {
 	HasCell bool      `json:"hasTTLCell"`
 	Plan    BuildPlan `json:"plan"`
 	SleepBefore int64 `json:"sleepBefore,omitempty"`
+	ExpireAllBefore bool `json:"expireAllBefore,omitempty"` // the backend's ExpireAll is called right before this Get
 	Cancel  bool      `json:"cancelAfterReturn"`
+	Deadline int64    `json:"deadlineIn,omitempty"` // caller context carries a deadline this far in the future
 	Rewrite bool      `json:"rewriteKeyAfterReturn"`
 }
 
@@ -613,6 +644,8 @@ func statusCoq(st string) string {
 		return "SBEntry"
 	case "bexit":
 		return "SBExit"
+	case "rdone", "wdone":
+		return "SPost"
 	case "log1", "log2", "log3", "log4":
 		return "(SLog " + N(uint64(st[3]-'0')) + ")"
 	}
@@ -675,6 +708,13 @@ func (r *FEngine) start(g GetSpec, tids *[]int) {
 
 	if g.Cancel {
 		ctx, cancel = context.WithCancel(ctx)
+	}
+
+	if g.Deadline > 0 {
+		var c2 context.CancelFunc
+
+		ctx, c2 = context.WithTimeout(ctx, time.Duration(g.Deadline))
+		_ = c2
 	}
 
 	if g.HasCell {
@@ -806,6 +846,12 @@ func (r *FEngine) Exec(gets []GetSpec, pol Policy) []int {
 				time.Sleep(time.Duration(g.SleepBefore))
 			}
 
+			if g.ExpireAllBefore {
+				time.Sleep(1) // ExpireAll stamps "now": make sure it lies in the past for the Get
+				r.ExpireAll()
+				time.Sleep(1)
+			}
+
 			r.start(g, &tids)
 			emit(fmt.Sprintf("MSpawn %s %s %s %s %s", N(uint64(g.Tid)), Key(g.Key), Bool(g.Skip), cellCoq(g), Z(time.Now().UnixNano())),
 				map[string]any{"action": "spawn", "get": g})
@@ -864,7 +910,19 @@ func (r *FEngine) Exec(gets []GetSpec, pol Policy) []int {
 		}
 
 		orc := fmt.Sprintf("(mkOrc %s %s %s %s %s %s)", Z(now), rd, wr, built, upd, Z(r.errExpiry(keyOf[tid])))
-		emit(fmt.Sprintf("MRun %s %s", N(uint64(mt)), orc), map[string]any{"action": "release", "tid": mt, "point": p.point, "fault": fault, "now": now})
+		head := "MRun"
+
+		r.mu.Lock()
+		if np, ok := r.parked[tid]; ok && (np.point == "rdone" || np.point == "wdone") {
+			head = "MRun1" // exactly the call-out, then parked again right after it
+		}
+		r.mu.Unlock()
+
+		if p.point == "rdone" || p.point == "wdone" {
+			head = "MCont"
+		}
+
+		emit(fmt.Sprintf("%s %s %s", head, N(uint64(mt)), orc), map[string]any{"action": "release", "tid": mt, "point": p.point, "fault": fault, "now": now})
 	}
 
 	return tids
